@@ -301,9 +301,10 @@ Definition op_remove (d : dstate) : option dres :=
       | None => ok d
       | Some i =>
           do (k, v) <- nth_error es i;
-          let d := if rc =? 0 then d else d_remove v (d_remove k d) in
-          do (rc', es') <- get_map (d_heap d) l;
-          ok (set_heap d (hset (d_heap d) l (CMap rc' (remove_nth i es'))))
+          (* the entry is dropped first, then key and value are un-counted (the order of the repair F50; vm.go as
+             found un-counts first, which un-counts the key twice when the value's removal frees the map itself) *)
+          let d := set_heap d (hset (d_heap d) l (CMap rc (remove_nth i es))) in
+          ok (if rc =? 0 then d else d_remove v (d_remove k d))
       end
   | _ => None
   end.
